@@ -54,6 +54,8 @@ class SATEncoder:
         """Encode all integer variables as exactly-one boolean constraints."""
         for var in self.model._vars.values():
             lits = [var.bool_vars[v] for v in range(var.lb, var.ub + 1)]
+            if not lits:
+                self._clauses.append([])  # Empty domain (lb > ub): no value, unsatisfiable
             self._encode_exactly_one(lits)
 
     # Simple constraint encoding
